@@ -15,7 +15,7 @@ RULE = ('the C08 histories (send family interleaved with reads against an echoin
         'files switched to another object or to None in mid-history (each object holds the transcript of exactly the period it was '
         'attached), awaited reads with the kernel-truth clause, a failing sendall (the argument is logged although the send fails). '
         'In a twentieth of the runs the log is handed to run(logfile=...) (C12 dialogues): every write is the next chunk read or the next '
-        'response sent, all of them are there, each followed by a flush. Non-trivial: >= 1 log write; distinct by trace digest')
+        'response sent, all of them are there, each followed by a flush. Ninth round: log doubles that are containers (falsy while empty) in a quarter of the runs; sends abandoned from outside (the log may or may not hold the abandoned call). Non-trivial: >= 1 log write; distinct by trace digest')
 
 ASSUME = ['a quarter of the runs are interact() sessions (C15 harness) with log files attached (clauses C11.interact_*)']
 
